@@ -112,7 +112,7 @@ def gen_random(rng):
 
 def gen_cases(tier, seed):
     yield from enum_cases()
-    n = 300 if tier == 'quick' else 16 * 5000
+    n = 1500 if tier == 'quick' else 16 * 5000
     for i in range(n):
         yield gen_random(random.Random(f'C14/{seed}/{tier}/{i}'))
 
